@@ -217,6 +217,43 @@ def mergeDomainListE (enum : List Int → List Int) (env : Env) (domains : List 
 def refineMergeE (enum : List Int → List Int) (env : Env) (results : List Hit) : List Hit :=
   ASV.Refine.removeIncomplete env (ASV.Refine.removeOverlapping env (mergeDomainListE enum env (ASV.Refine.sortHits results)))
 
+/-! ### `build_results`: genes of pre-existing subregions outside every protocluster -/
+
+/-- the loop `for subregion in record.get_subregions(): for cds in subregion.cds_children: …`:
+    `subregions` = the gene numbers of each subregion's `cds_children` (a tuple in position order),
+    `annotated` = an enumeration of the set `cdses_with_annotations` (asked for membership only, and
+    extended), `hasDomains` = the gene has profile hits.  Returns `cds_results_outside_clusters` as gene
+    numbers, in the order they are appended. -/
+def outsideGo (hasDomains : Int → Bool) : List Int → List Int → List Int → List Int × List Int
+  | annotated, acc, [] => (annotated, acc)
+  | annotated, acc, cds :: rest =>
+    if annotated.contains cds then outsideGo hasDomains annotated acc rest
+    else if hasDomains cds then outsideGo hasDomains (annotated ++ [cds]) (acc ++ [cds]) rest
+    else outsideGo hasDomains annotated acc rest
+
+def outsideResults (hasDomains : Int → Bool) (annotated : List Int) (subregions : List (List Int)) : List Int :=
+  (subregions.foldl (fun st sub => outsideGo hasDomains st.1 st.2 sub) (annotated, [])).2
+
+/-- the shape the property forbids: `for cds in set(subregion.cds_children).difference(annotated)`, the
+    set iterated in the order `enum` gives -/
+def outsideResultsSetE (enum : List Int → List Int) (hasDomains : Int → Bool) (annotated : List Int)
+    (subregions : List (List Int)) : List Int :=
+  (subregions.foldl (fun st sub =>
+    outsideGo hasDomains st.1 st.2 (enum (sub.filter fun c => !st.1.contains c))) (annotated, [])).2
+
+/-! ### `sideloader.general.load_single_record_annotations`: `--sideload-by-cds` -/
+
+/-- one `SubRegionAnnotation` built around a named gene: (start, end, label) -/
+def byCdsArea (circular : Bool) (L pad : Int) (gene : Int × Int) (name : Int) : Int × Int × Int :=
+  if circular then ((gene.1 - pad + L) % L, (gene.2 + pad) % L, name)
+  else (max 0 (gene.1 - pad), min (gene.2 + pad) L, name)
+
+/-- `for name in cds_markers:` — the locus tags in the order given on the command line; a tag that
+    names no gene is skipped (and reported), a tag given twice yields two subregions -/
+def subregionsByCds (circular : Bool) (L pad : Int) (lookup : Int → Option (Int × Int)) (markers : List Int) :
+    List (Int × Int × Int) :=
+  markers.filterMap fun name => (lookup name).map fun gene => byCdsArea circular L pad gene name
+
 /-! ### writing a record: `Feature.to_biopython` + `Record.to_biopython` -/
 
 /-- what `Record.to_biopython` reads from a feature: the comparison fields of `Feature.__lt__`, the
